@@ -45,6 +45,11 @@ add("C18", EX,
     "Trusted: refimpl::datagram + refimpl::varint. Payload bytes are position-coded (the codec never branches on them).",
     "exhaustive bounded enumeration of inputs and Buf consumption programs on the implementation, reference-model oracle", "enumeration", "DESIGN.md 5/C18")
 
+add("C04", MC,
+    "Every control-stream frame sequence up to length M over a 16-item alphabet x ending x role x delivery mode x four own-side environments (grease on/off, the optional 4th outgoing stream never granted, own writes one byte at a time), and every sequence of up to N unidirectional streams over 11 kinds x type/id varint forms in all arrival orders, is played against real h3 endpoints over simnet; explored mode adds every chunk cut, delayed delivery and scheduling deviation up to the bound. Oracle: RFC 9114 6.2/7.2.4 automaton, duplicate-critical-stream rule, and exactly-once observable effects of SETTINGS and GOAWAY.",
+    "Trusted: refimpl::h3auto; simnet stream semantics (a RESET may overtake unread bytes, incl. the stream type). Not asserted: grease before SETTINGS, CANCEL_PUSH, push streams.",
+    "stateless DFS over environment choices (chunk cuts, delays, schedule, stream credit, write acceptance) with deviation bound, of the implementation against a reference automaton", "dfs", "DESIGN.md 5/C04")
+
 ALL = [f"C{i:02d}" for i in range(1, 21)]
 pending_reason = "check not built yet in this revision of /verif (planned, see DESIGN.md section 5)"
 manifest = dict(
